@@ -96,6 +96,7 @@ def gen_site(rng: random.Random, scratch: str, name_classes=("plain", "spaces", 
                          "Name=Local Again\nType=0\nPath=/umn/one.txt\nHost=+\nPort=+\n\n"
                          "Name=Other port here\nType=1\nPath=/otherport\nHost=+\nPort=7070\n\n"
                          "Name=Relative with plus\nType=0\nPath=one.txt\nHost=+\nPort=+\n\n"
+                         "Name=Mail link\nType=h\nPath=URL:mailto:webmaster@example.org\nHost=+\nPort=+\n\n"
                          "Name=Finger information\nType=0\nPath=lindner\nHost=mudhoney.example.org\nPort=79\n\n"
                          "Name=Bucktooth style remote\nType=1\nPath=1/docs/about\nHost=other.example.org\nPort=70\n\n"
                          "Name=Relative bare\nType=0\nPath=two.txt\n\n"
@@ -109,7 +110,8 @@ def gen_site(rng: random.Random, scratch: str, name_classes=("plain", "spaces", 
     t.file("gm/gophermap",
            "Welcome to the map\n\n0Local file\tlocal.txt\n0Absolute\t/umn/one.txt\n"
            "1Remote dir\t/x\tgopher.example.org\t70\n1Up\t/umn\nhWeb\tURL:http://example.org/a?b=c\n"
-           "7Search it\t/gm/local.txt\n")
+           "7Search it\t/gm/local.txt\n"
+           "hMail the admin\tURL:mailto:admin@example.org\nhNews group\tURL:news:comp.infosystems.gopher\n")
     if with_mail:
         subj = ["Hello world", "Re: A & B <tag>", "third  message"]
         t.file("mail.mbox", trees.make_mbox(subj, scratch))
@@ -130,11 +132,19 @@ def gen_site(rng: random.Random, scratch: str, name_classes=("plain", "spaces", 
         z.file("mail.mbox", zmbox)
         z.subtree("md", trees.maildir_tree(["Zipped maildir"], where="cur"))
         z.file("run.sh", trees.script_echo_env(), mode=0o755)
+        # members whose own names look like archives: a directory and a nested archive
+        z.file("backup.zip/readme.txt", "inside a directory that is merely called backup.zip\n")
+        z.file("inner.zip", Tree().file("nested.txt", "nested member\n").to_zip())
         zdata = z.to_zip()
         t.file("arch.zip", zdata)
         m.add(b"/arch.zip/mail.mbox", "doc", zmbox, needs_full=True, tags=["zipmember", "zip-mbox"])
         m.add(b"/arch.zip/md", "menu", needs_full=True, tags=["zipdir", "zip-maildir"])
         m.add(b"/arch.zip/run.sh", "doc", trees.script_echo_env(), needs_full=True, tags=["zipmember", "zip-script"])
+        m.add(b"/arch.zip/backup.zip", "menu", needs_full=True, tags=["zipdir", "zipdir-named-like-archive"])
+        m.add(b"/arch.zip/backup.zip/readme.txt", "doc", b"inside a directory that is merely called backup.zip\n", needs_full=True,
+              mime="text/plain", tags=["zipmember"])
+        m.add(b"/arch.zip/inner.zip", "menu", needs_full=True, tags=["zip", "nested-zip"])
+        m.add(b"/arch.zip/inner.zip/nested.txt", "doc", b"nested member\n", needs_full=True, mime="text/plain", tags=["zipmember"])
         m.add(b"/arch.zip", "menu", needs_full=True, tags=["zip"])
         m.add(b"/arch.zip/inner.txt", "doc", b"inside the archive\n", needs_full=True,
               mime="text/plain", tags=["zipmember"])
